@@ -6,6 +6,7 @@ import (
 	"encoding/binary"
 	"encoding/json"
 	"fmt"
+	"math"
 	"os"
 	"testing"
 
@@ -502,7 +503,9 @@ var readOp = rapid.Custom(func(t *rapid.T) Op {
 	case "r_bytes":
 		op.N = rapid.IntRange(0, 40).Draw(t, "n")
 	case "r_cstrn", "r_cstrnw", "r_nbytes":
-		op.N = rapid.OneOf(rapid.IntRange(-1, 40), rapid.IntRange(-1, 300)).Draw(t, "n")
+		op.N = rapid.OneOf(rapid.IntRange(-1, 40), rapid.IntRange(-1, 300), rapid.IntRange(-1, 40),
+			// lengths taken from a hostile field: the largest values of every integer width (offset + n must not wrap)
+			rapid.SampledFrom([]int{math.MaxInt, math.MaxInt - 1, math.MaxInt - 7, math.MaxInt32, math.MaxInt32 + 1, 1 << 32, math.MaxUint32, math.MinInt, math.MinInt32, 65535, 65536})).Draw(t, "n")
 	}
 	return op
 })
